@@ -609,9 +609,20 @@ Proof.
   cbn [bind]. intros H.
   apply (f_equal (fun r => match r with Ok (f, _) => f | Exc _ => [] end)) in H.
   cbv beta iota zeta in H. rewrite <- H. clear H.
-  eexists z, rest, _, _. split; [reflexivity|]. split; [apply N.mod_lt; lia|].
-  rewrite !term_app. rewrite <- !join_term by discriminate.
-  unfold checksum. cbn [join]. rewrite <- !app_assoc. reflexivity.
+  set (fields := field T49 (sender sess) :: field T56 (target sess) :: field T34 (z_to_dec z)
+                 :: field T52 t :: rest).
+  set (blen := N.of_nat (length (join SOHs fields ++ SOHs) + length (field T35 (msg_type m)) + 1)).
+  set (header := [field T8 bs; field T9 (n_to_dec blen); field T35 (msg_type m)]).
+  set (fixmsg := join SOHs header ++ SOHs ++ join SOHs fields ++ SOHs).
+  exists z, rest, blen, (checksum fixmsg). split; [reflexivity|]. split; [apply N.mod_lt; lia|].
+  change ([field T49 (sender sess); field T56 (target sess); field T34 (z_to_dec z); field T52 t]
+          ++ rest ++ [field T10 (fmt03 (checksum fixmsg))])
+    with (fields ++ [field T10 (fmt03 (checksum fixmsg))]).
+  fold header. rewrite !term_app.
+  rewrite <- (join_term header) by discriminate.
+  rewrite <- (join_term fields) by discriminate.
+  rewrite <- (join_term [field T10 (fmt03 (checksum fixmsg))]) by discriminate.
+  unfold fixmsg. cbn [join]. rewrite <- !app_assoc. reflexivity.
 Qed.
 
 Lemma encode_fields_scan bs m sess t raw frame sess' :
@@ -621,7 +632,8 @@ Proof.
   intros He Hin. destruct (encode_fields _ _ _ _ _ _ _ He) as (z & rest & blen & ck & Er & Hck & ->).
   unfold inputs_fields_ok in Hin. rewrite !andb_true_iff in Hin.
   destruct Hin as [[[[[Hbs Hmt] Hsn] Htg] Ht] Hc].
-  apply scan_term. repeat apply Forall_app; repeat split.
+  apply scan_term.
+  apply Forall_app; split; [|apply Forall_app; split; [|apply Forall_app; split]].
   - repeat (constructor; [apply field_fld_ok; auto using n_to_dec_soh_free; reflexivity|]). constructor.
   - repeat (constructor; [apply field_fld_ok; auto using z_to_dec_soh_free; reflexivity|]). constructor.
   - exact (render_body_all tag_okb soh_free (fun f => fld_okb f = true) field_fld_ok n_to_dec_soh_free
